@@ -1069,7 +1069,7 @@ let run_check (path : string) =
           | Some t when Z.leb m.mtime t -> acc
           | _ -> Some m.mtime) None c.a.live;
       mutated c
-    | ["rmindex"; _] | ["rmindex"; _; _] | ["idxcut"; _] | ["gc"] | ["sleepms"; _] | ["bkclean"; _] | ["bkhalf"; _] -> ()
+    | ["rmindex"; _] | ["rmindex"; _; _] | ["idxcut"; _] | ["gc"] | ["sleepms"; _] | ["bkclean"; _] | ["bkhalf"; _] | ["bkhalf"; _; _] -> ()
     | ["migrate"; v] ->
       (match r with
        | "ok" :: _ ->
@@ -1211,6 +1211,12 @@ let codec_step (f : string list) : string =
        Printf.sprintf "ok %s %s%s steps=%s" (hex_or_empty fin.rlog)
          (match fin.ridx with None -> "none" | Some x -> hex_or_empty x)
          (match fin.rrtmp with None -> "" | Some _ -> " extra:.log.migrate") (String.concat "," (List.map render prog)))
+  | ["segbk"; _base; slog; sidx; mtl; mti; tlog; tmtl; tidx; tmti] ->
+    (* Segment.Backup of one segment: BackupFiles.copy_file on the log, then on the index *)
+    let file hx mt = { bdata = (if hx = "-" then [] else bytes_of_hex hx); bmtime = z_of_string mt } in
+    let tgt hx mt = if hx = "none" then None else Some (file hx mt) in
+    let show f = Printf.sprintf "%s %s" (hex_or_empty f.bdata) (string_of_z f.bmtime) in
+    Printf.sprintf "ok %s %s" (show (copy_file (file slog mtl) (tgt tlog tmtl))) (show (copy_file (file sidx mti) (tgt tidx tmti)))
   | "mkseg" :: v :: iv :: t :: k :: _base :: ms ->
     (* a clean segment: log bytes and the derived index bytes *)
     let v = ver_of v and p = params_of_toks t k in
